@@ -74,7 +74,7 @@ func wlShortDiff(a, b string) string {
 }
 
 func runC03(c *vlib.Ctx) {
-	names := []string{"repo", "kv", "labelmap", "annotation", "neuronjson", "delete", "roi", "imageblk", "sync"}
+	names := []string{"repo", "kv", "labelmap", "annotation", "neuronjson", "delete", "roi", "imageblk", "sync", "tworepos"}
 	ws := wlWorkloads()
 	type job struct {
 		w     string
